@@ -276,6 +276,16 @@ func c13Variants(rng *gen.Rng, i int) ([]c13Variant, [][]byte) {
 		k := add("stored-pattern-holding-an-inline-subroutine-of-its-own-name", inl, []gen.Global{gs}, cmd)
 		vs[k].src = gen.RenderGlobal(gs) + "\n" + gen.RenderCommand(cmd)
 	}
+	// stored patterns whose names differ only in letter case are different patterns, whichever is defined last
+	{
+		other := []gen.Node{gen.Or{Alts: []gen.Node{gen.Lit{S: "x"}, gen.Lit{S: "b"}}}}
+		gU := gen.Global{Name: "GX", Body: other}
+		gM := gen.Global{Name: "Gx", Body: []gen.Node{gen.Lit{S: "a"}}}
+		w := add("in-place:body-then-other-body", -1, nil, cmdFind(wrapPS(grp, gen.Seq{Items: other})...))
+		add("two-stored-patterns-differing-in-letter-case", w, []gen.Global{g, gU}, cmdFind(wrapPS(gen.GlobalRef{Name: "gx"}, gen.GlobalRef{Name: "GX"})...))
+		add("two-stored-patterns-differing-in-letter-case-defined-in-the-other-order", w, []gen.Global{gU, g}, cmdFind(wrapPS(gen.GlobalRef{Name: "gx"}, gen.GlobalRef{Name: "GX"})...))
+		add("three-stored-patterns-differing-in-letter-case", w, []gen.Global{gM, g, gU, gM}, cmdFind(wrapPS(gen.GlobalRef{Name: "gx"}, gen.GlobalRef{Name: "GX"})...))
+	}
 	// three commands sharing one definition == concatenation of the commands taken alone
 	c3 := cmdFind(gen.Or{Alts: []gen.Node{gen.Lit{S: "b"}, gen.GlobalRef{Name: "gx"}}}, gen.Loop{Min: 0, Max: 1, Form: "maybe", Body: gen.GlobalRef{Name: "gx"}})
 	if !subDup {
@@ -303,7 +313,7 @@ func C13(r *drv.Run) {
 	if !quick(r) {
 		nbody, nhist = 20000, 2500
 	}
-	r.Rule = "(1) capture-free bodies B (with or, in, not in, loops, nested and recursive subroutines) in contexts prefix/suffix, inside a loop, inside an alternation: B in place == {B}=s (+0..2 calls) == set g to pattern B referenced 1..3 times, also referenced before AND inside a counted loop (exactly 2 / at least 2 / between 3 and 4), first mentioned inside a zero-count loop and then used, a stored pattern built on another one whose name is defined again before the command, an inline subroutine of the command named like one inside the stored pattern, every inline-subroutine variant again next to an unrelated stored pattern of the same name, an inline subroutine declared inside a loop and called after it, a stored pattern with a predicate used inside another stored pattern, a name defined again in terms of its own previous definition (== the two-name form == written out), a stored pattern whose body declares an inline subroutine of the stored pattern's own name, all also judged by the reference matcher; (2) a three-command source sharing one definition == concatenation of its commands compiled alone; a source that defines the name AGAIN with another body between its commands == concatenation of each command compiled alone with the definition in force where it stands; (3) recorded sequential histories of Compile/Run calls in random order over a pool of sources (including sources whose compilation fails in the parser, the regex sub-parser, the generator and the type checker) and texts, checked offline against the pure-function model: each call's result digest equals the digest the same call produced alone in a fresh worker process; (4) canonical bytecode digest (loop ids normalised) unchanged by runs and equal across recompilations. Non-trivial = variant pair with >= 1 match compared / history call whose isolated result has >= 1 match; distinct by (variant source, text) and (history, call index)."
+	r.Rule = "(1) capture-free bodies B (with or, in, not in, loops, nested and recursive subroutines) in contexts prefix/suffix, inside a loop, inside an alternation: B in place == {B}=s (+0..2 calls) == set g to pattern B referenced 1..3 times, also referenced before AND inside a counted loop (exactly 2 / at least 2 / between 3 and 4), first mentioned inside a zero-count loop and then used, a stored pattern built on another one whose name is defined again before the command, an inline subroutine of the command named like one inside the stored pattern, every inline-subroutine variant again next to an unrelated stored pattern of the same name, an inline subroutine declared inside a loop and called after it, a stored pattern with a predicate used inside another stored pattern, stored patterns whose names differ only in letter case, a name defined again in terms of its own previous definition (== the two-name form == written out), a stored pattern whose body declares an inline subroutine of the stored pattern's own name, all also judged by the reference matcher; (2) a three-command source sharing one definition == concatenation of its commands compiled alone; a source that defines the name AGAIN with another body between its commands == concatenation of each command compiled alone with the definition in force where it stands; (3) recorded sequential histories of Compile/Run calls in random order over a pool of sources (including sources whose compilation fails in the parser, the regex sub-parser, the generator and the type checker) and texts, checked offline against the pure-function model: each call's result digest equals the digest the same call produced alone in a fresh worker process; (4) canonical bytecode digest (loop ids normalised) unchanged by runs and equal across recompilations. Non-trivial = variant pair with >= 1 match compared / history call whose isolated result has >= 1 match; distinct by (variant source, text) and (history, call index)."
 	r.Assumptions = []string{
 		"bodies are capture-free, as the property says",
 		"a body that itself declares subroutines is not duplicated textually (two declarations of one name are rejected by design)",
